@@ -350,6 +350,9 @@ impl Check for VaultCheck {
     fn components(&self) -> serde_json::Value {
         serde_json::json!({"real": ["examples/fungible-vault (from source)", "vault::Vault::*", "math::mul_div_i128", "fungible Base (share token and asset token: balances, allowances with expiry)"], "stub": ["Wallet (accept-all signature check)", "Asset::transfer/transfer_from fault point: trap before / after moving funds (scripted)"]})
     }
+    fn clock_step(&self, n: u32) -> Option<Step> {
+        Some(Step::Advance { n })
+    }
     fn probes(&self, _prop: &str) -> std::vec::Vec<&'static str> {
         vec!["probe.huge_unspecified", "probe.rounding_dust_to_vault"]
     }
